@@ -33,6 +33,9 @@ def cplx_flat(v):
     return [[x[0], x[1]] if isinstance(x, list) else [x, 0.0] for x in v]
 
 
+INF = float('inf')
+
+
 def cplx_same(xs, ys, tol):
     """lists of (re, im) pairs (cplx_flat): equal up to tolerance; a number with a NaN component is NaN as a whole (np.isnan), so
     (nan, 0) and (nan, nan) -- real * nan versus complex * nan, both IEEE-correct -- are the same non-finite value"""
@@ -55,6 +58,8 @@ def num_same(x, y, tol):
     if isinstance(x, (int, float)) and isinstance(y, (int, float)):
         if x != x or y != y:
             return (x != x) == (y != y)
+        if x in (INF, -INF) or y in (INF, -INF):       # (inf <= tol * inf would accept any pair)
+            return x == y
         return abs(x - y) <= tol * (1 + abs(x) + abs(y))
     return x == y
 
@@ -232,11 +237,19 @@ def selects_nothing(idx, shape):
 def classify(st, p, y, diffs, case=None):
     """stable match key: call site + structural condition of the operands + kind of difference"""
     op = st['op']
+    pre = p.get('pre', {})
+    A, B = pre.get('a'), pre.get('b')
     if op in ('tensordot', 'w_tensordot') and st.get('axes') == 0 and (case or {}).get('optimize') == 3 and diffs and \
             diffs[0] == 'error-class' and p.get('error') == 'ValueError' and 'Shape mismatch' in p.get('msg', '') and 'error' not in y:
         # F04.1: at optimization level 3 (skip_arg_checks) the Python twin of _tensordot_transpose_axes compares
         # a.shape[-0:] (= the WHOLE shape) with b.shape[:0] = () for an outer product and raises; the compiled twin tests `axes > 0` first
         return 'C04:_tensordot_transpose_axes:axes=0:skip_arg_checks:py-raises-shape-mismatch'
+    if op in ADD_OPS and diffs and all(d.endswith('block-values') for d in diffs) and isinstance(st.get('s'), float) and \
+            abs(st['s']) > 3.5e38 and A and B and B['dtype'] in ('float32', 'complex64') and A['dtype'] not in ('float32', 'complex64') and \
+            nonfinite(p.get('recv')) and not nonfinite(y.get('recv')):
+        # F04.3: the Python twin multiplies `other` by the prefactor in other's (single precision) dtype before the sum is promoted:
+        # a prefactor beyond the float32 range overflows to inf where the compiled twin (promote first, then axpy) stays finite
+        return 'C04:iadd_prefactor_other:py-scales-in-single-precision:overflow'
     if op == 'iadd_prefactor_other' and diffs == ['error-class'] and p.get('error') == 'ValueError' and \
             p.get('msg', '').startswith('wrong argument types') and \
             ('b_raw' in st or (isinstance(st.get('s'), list) and st['s'][0] == 'raw')):
@@ -273,6 +286,18 @@ def classify(st, p, y, diffs, case=None):
     if zero_size and 'error-class' in diffs and (('error' in p) != ('error' in y)):
         return 'C04:zero-size-leg-block:raises-in-one-configuration'
     return 'C04:%s:%s' % (op, ','.join(sorted(set(d.split('/')[-1].split('[')[0] for d in diffs)))[:60])
+
+
+def nonfinite(o):
+    """does the observation of a tensor contain inf / nan entries?"""
+    if not isinstance(o, dict) or 'blocks' not in o:
+        return False
+    for blk in o['blocks']:
+        for v in blk[2]:
+            for x in (v if isinstance(v, list) else [v]):
+                if x != x or x in (INF, -INF):
+                    return True
+    return False
 
 
 def blame(p, y):
